@@ -107,7 +107,7 @@ def register_handler(R):
     R.shape("HandlerGenModel", cls="HandlerGen", fields={"finished": "bool", "closed": "int"})
     R.shape("NullContextModel", cls="NullContext", fields={})
     R.external("contextlib.nullcontext", "stubs.async_backend.NullContext")
-    R.ghost(delivered="int", live_gens="int")
+    R.ghost(delivered="int", live_gens="int", last_timeout="opt[xreal]")
     R.module("easynetwork/lowlevel/api_async/servers/datagram.py")
     R.inline_fn("_ClientData.backend")
     R.shape("AsyncDatagramServerP", cls="AsyncDatagramServer", fields={"__protocol": "DatagramProtocol"})
@@ -129,11 +129,12 @@ def register_handler(R):
         locals_types={"action": "opt[obj]", "timeout": "opt[xreal]", "datagram": "bytes"},
         requires=[("called-by-the-running-task", f"{csi} == {RUNNING}"), ("fresh-generator", f"not {gen}.finished and {gen}.closed == 0"),
                   ("a-datagram-is-waiting (a task is started only for a queued datagram)", f"len({cqi}) >= 1")],
-        loops={1: {"inv": [f"{csi} == {RUNNING}", f"not {gen}.finished", f"{gen}.closed == 0", "not client_data._queue_condition.held", "ghost.live_gens == old(ghost.live_gens)"]}},
+        loops={1: {"inv": [f"{csi} == {RUNNING}", f"not {gen}.finished", f"{gen}.closed == 0", "not client_data._queue_condition.held", "ghost.live_gens == old(ghost.live_gens)", "timeout == ghost.last_timeout"]}},
         ensures=inner_exit,
         raises={"BaseException": inner_exit},
-        modifies=[cqi, csi, "client_data._queue_condition.held", f"{gen}.finished", f"{gen}.closed", "ghost.suspensions", "ghost.delivered", "ghost.live_gens"],
-        env={"rely_havoc": [cqi], "rely_inv": []},
+        modifies=[cqi, csi, "client_data._queue_condition.held", f"{gen}.finished", f"{gen}.closed", "ghost.suspensions", "ghost.delivered", "ghost.live_gens", "ghost.last_timeout"],
+        env={"rely_havoc": [cqi], "rely_inv": [],
+             "call_hints": {"AsyncBackend.timeout": [("the-wait-for-the-next-datagram-uses-exactly-the-timeout-the-handler-just-yielded", "arg('delay') == ghost.last_timeout", "C16")]}},
         tags="C16 C17",
     )
     A_after = f"implies(isnone({csi}), len({cqi}) == 0)"
@@ -148,7 +149,7 @@ def register_handler(R):
         requires=[("a-task-is-pending-for-this-client", f"{csi} == {PENDING}"), ("with-a-datagram-waiting", f"len({cqi}) >= 1")],
         ensures=outer_exit,
         raises={"BaseException": outer_exit},
-        modifies=[csi, cqi, "client_data._queue_condition.held", "ghost.tasks_started", "ghost.suspensions", "ghost.delivered", "ghost.live_gens"],
+        modifies=[csi, cqi, "client_data._queue_condition.held", "ghost.tasks_started", "ghost.suspensions", "ghost.delivered", "ghost.live_gens", "ghost.last_timeout"],
         tags="C16 C17",
     )
     cq, cs = "client_data._datagram_queue.items", "client_data._ClientData__state"
@@ -160,7 +161,7 @@ def register_handler(R):
         requires=[("A holds for the cached client entry", "implies(not client_data_cache.missing and isnone(client_data_cache.entry._ClientData__state), len(client_data_cache.entry._datagram_queue.items) == 0)")],
         ensures=[("A: this client has a task whenever datagrams are queued", A, "C16")],
         raises={"BaseException": [("A: this client has a task whenever datagrams are queued", A, "C16")]},
-        modifies=["client_data_cache.entry", "client_data_cache.missing", "client_ctx_cache.entry", "client_ctx_cache.missing", "ghost.tasks_started", "ghost.suspensions", "ghost.delivered", "ghost.live_gens",
+        modifies=["client_data_cache.entry", "client_data_cache.missing", "client_ctx_cache.entry", "client_ctx_cache.missing", "ghost.tasks_started", "ghost.suspensions", "ghost.delivered", "ghost.live_gens", "ghost.last_timeout",
                   "client_data_cache.entry._ClientData__state", "client_data_cache.entry._datagram_queue.items", "client_data_cache.entry._queue_condition.held"],
         env={"atomic_inv": [("A at every suspension point of the handler (no await between queueing a datagram for an idle client and starting its task)", A, "C16")],
              "rely_havoc": ["?client_data._datagram_queue.items", "?client_data._ClientData__state"],
